@@ -2959,6 +2959,24 @@ static Type check_expression_impl(ASTNode *expr, Environment *env) {
             /* Check each arm and infer return type from first arm */
             Type return_type = TYPE_UNKNOWN;
             for (int i = 0; i < expr->as.match_expr.arm_count; i++) {
+                /* Each arm names an existing variant of the scrutinee's union, once (as for a match statement) */
+                if (union_base_name && env_get_union(env, union_base_name)) {
+                    const char *vn = expr->as.match_expr.pattern_variants[i];
+                    if (env_get_union_variant_index(env, union_base_name, vn) < 0) {
+                        g_typecheck_error_diagnostics++;
+                        fprintf(stderr, "Error at line %d, column %d: Union '%s' has no variant '%s' (match arm %d)\n",
+                                expr->line, expr->column, union_base_name, vn, i + 1);
+                    }
+                    for (int j = 0; j < i; j++) {
+                        if (strcmp(expr->as.match_expr.pattern_variants[j], vn) == 0) {
+                            g_typecheck_error_diagnostics++;
+                            fprintf(stderr, "Error at line %d, column %d: Duplicate match arm for variant '%s'\n",
+                                    expr->line, expr->column, vn);
+                            break;
+                        }
+                    }
+                }
+
                 /* Save symbol count for scope */
                 int saved_symbol_count = env->symbol_count;
                 
